@@ -464,6 +464,7 @@ type txCtx struct {
 	tr      *leveldb.Transaction
 	n       int
 	overlay []Rec
+	iters   map[int]*iterState
 }
 
 func (r *runner) wo(op *Op) *opt.WriteOptions {
@@ -889,6 +890,17 @@ func (r *runner) execTx(op *Op) {
 		}
 		r.execOp(&op.Body[i], tx)
 	}
+	{
+		var ks []int
+		for k := range tx.iters {
+			ks = append(ks, k)
+		}
+		sort.Ints(ks)
+		for _, k := range ks {
+			tx.iters[k].it.Release()
+		}
+		tx.iters = nil
+	}
 	if len(r.out.Viol) > 0 {
 		tr.Discard()
 		return
@@ -961,6 +973,17 @@ func (r *runner) execOp(op *Op, tx *txCtx) {
 		}
 		r.probe("iter")
 		r.stepIter(is, op.Moves, op.Scrib)
+		if op.Keep && tx != nil && len(r.out.Viol) == 0 {
+			if tx.iters == nil {
+				tx.iters = map[int]*iterState{}
+			}
+			if old := tx.iters[op.Slot]; old != nil {
+				old.it.Release()
+			}
+			tx.iters[op.Slot] = is
+			r.probe("tx-iter-kept")
+			return
+		}
 		if op.Keep && tx == nil && len(r.out.Viol) == 0 {
 			slot := op.Slot
 			if op.Via == "snap" {
@@ -975,6 +998,13 @@ func (r *runner) execOp(op *Op, tx *txCtx) {
 			is.it.Release()
 		}
 	case "iterstep":
+		if tx != nil {
+			if is := tx.iters[op.Slot]; is != nil {
+				r.stepIter(is, op.Moves, false)
+				r.probe("tx-iter-resumed")
+			}
+			return
+		}
 		if is := r.iters[op.Slot]; is != nil {
 			r.stepIter(is, op.Moves, false)
 			r.probe("iter-resumed")
